@@ -119,6 +119,9 @@ Notation steps := (steps uni_letter uni_digit inp base).
 Notation span := (span inp).
 Notation lexes := (lexes uni_letter uni_digit inp base).
 
+(* every lemma of this section takes the four hypotheses, whether its proof needs them or not *)
+Definition HYPS := conj letter_ascii (conj digit_ascii (conj letter_eof digit_eof)).
+
 Lemma sent_last t w l l' : sent t w l l' -> last_typ l' = t.
 Proof. intros (p & _ & H & _). unfold last_typ. rewrite H. reflexivity. Qed.
 
@@ -128,12 +131,14 @@ Lemma lexes_tok (P : N -> Prop) (F : bstr -> Prop) w t :
      exists k l', steps k LInsideTag l = Ok (LInsideTag, l') /\ span l' [] s /\ sent t w l l') ->
   lexes P F w [(t, w)] (eq t).
 Proof.
+  pose proof HYPS as Hyps.
   intros H l s Hs HP HF. destruct (H l s Hs HP HF) as (k & l' & A & B & C).
   exists k, l'. split; [exact A|]. split; [exact B|]. split; [apply sends_one; exact C|]. symmetry. eapply sent_last; exact C.
 Qed.
 
 Lemma lexes_space P : lexes P anys [32%N] [] P.
 Proof.
+  pose proof HYPS as Hyps.
   intros l s Hs HP _. cbn [app] in Hs. destruct (lex_space uni_letter uni_digit inp base l 32%N s Hs ltac:(reflexivity)) as (l' & A & B & C).
   exists 1%nat, l'. split; [exact A|]. split; [exact B|]. split; [constructor; exact C|].
   destruct C as (_ & C & _). unfold last_typ. rewrite C. exact HP.
@@ -141,6 +146,7 @@ Qed.
 
 Lemma lexes_punct c t : assoc c punct_table = Some t -> lexes anyty anys [c] [(t, [c])] (eq t).
 Proof.
+  pose proof HYPS as Hyps.
   intros Ht. apply lexes_tok. intros l s Hs _ _. cbn [app] in Hs.
   destruct (lex_punct uni_letter uni_digit inp base l c t s Hs Ht) as (l' & A & B & C). exists 1%nat, l'. auto.
 Qed.
@@ -149,6 +155,7 @@ Lemma lexes_word c0 cs : (c0 < 128)%N -> letter_b c0 = true -> forallb (fun c =>
   word_type (c0 :: cs) <> itemLiteral -> word_type (c0 :: cs) <> itemCss ->
   lexes anyty stops (c0 :: cs) [(word_type (c0 :: cs), c0 :: cs)] (eq (word_type (c0 :: cs))).
 Proof.
+  pose proof HYPS as Hyps.
   intros H0 H1 H2 H3 H4. apply lexes_tok. intros l s Hs _ Hst. cbn [app] in Hs.
   destruct (lex_word uni_letter uni_digit letter_ascii digit_ascii letter_eof digit_eof inp base l c0 cs s Hs H0 H1 H2 Hst H3 H4) as (l' & A & B & C).
   exists 2%nat, l'. auto.
@@ -158,6 +165,7 @@ Definition alnums (cs : bstr) : Prop := forallb (fun c => (c <? 128)%N && alnum_
 
 Lemma lexes_dollar cs : alnums cs -> lexes anyty stops (36%N :: cs) [(itemDollarIdent, 36%N :: cs)] (eq itemDollarIdent).
 Proof.
+  pose proof HYPS as Hyps.
   intros H. apply lexes_tok. intros l s Hs _ Hst. cbn [app] in Hs.
   destruct (lex_dollar uni_letter uni_digit letter_ascii digit_ascii letter_eof digit_eof inp base l cs s Hs H Hst) as (l' & A & B & C).
   exists 2%nat, l'. auto.
@@ -167,6 +175,7 @@ Lemma lexes_dot cs (dig : bool) : alnums cs ->
   lexes anyty (fun s => stops s /\ head_digit (cs ++ s) = dig) (46%N :: cs)
         [(if dig then itemDotIndex else itemDotIdent, 46%N :: cs)] (eq (if dig then itemDotIndex else itemDotIdent)).
 Proof.
+  pose proof HYPS as Hyps.
   intros H. apply lexes_tok. intros l s Hs _ [Hst Hd]. cbn [app] in Hs.
   destruct (lex_dot uni_letter uni_digit letter_ascii digit_ascii letter_eof digit_eof inp base l cs s Hs H Hst) as (l' & A & B & C).
   rewrite Hd in C. exists 2%nat, l'. auto.
@@ -177,6 +186,7 @@ Lemma lexes_qdot cs (dig : bool) : alnums cs ->
         [(if dig then itemQuestionDotIndex else itemQuestionDotIdent, 63%N :: 46%N :: cs)]
         (eq (if dig then itemQuestionDotIndex else itemQuestionDotIdent)).
 Proof.
+  pose proof HYPS as Hyps.
   intros H. apply lexes_tok. intros l s Hs _ [Hst Hd]. cbn [app] in Hs.
   destruct (lex_qdot uni_letter uni_digit letter_ascii digit_ascii letter_eof digit_eof inp base l cs s Hs H Hst) as (l' & A & B & C).
   rewrite Hd in C. exists 2%nat, l'. auto.
@@ -184,6 +194,7 @@ Qed.
 
 Lemma lexes_qkey : lexes anyty anys [63; 91]%N [(itemQuestionKey, [63; 91]%N)] (eq itemQuestionKey).
 Proof.
+  pose proof HYPS as Hyps.
   apply lexes_tok. intros l s Hs _ _. cbn [app] in Hs.
   destruct (lex_q2 uni_letter uni_digit inp base l 91%N itemQuestionKey s Hs ltac:(left; split; reflexivity)) as (l' & A & B & C).
   exists 1%nat, l'. auto.
@@ -191,6 +202,7 @@ Qed.
 
 Lemma lexes_elvis : lexes anyty anys [63; 58]%N [(itemElvis, [63; 58]%N)] (eq itemElvis).
 Proof.
+  pose proof HYPS as Hyps.
   apply lexes_tok. intros l s Hs _ _. cbn [app] in Hs.
   destruct (lex_q2 uni_letter uni_digit inp base l 58%N itemElvis s Hs ltac:(right; split; reflexivity)) as (l' & A & B & C).
   exists 1%nat, l'. auto.
@@ -199,6 +211,7 @@ Qed.
 (* "?" before a space *)
 Lemma lexes_ternif : lexes anyty (fun s => match s with 32%N :: _ => True | _ => False end) [63%N] [(itemTernIf, [63%N])] (eq itemTernIf).
 Proof.
+  pose proof HYPS as Hyps.
   apply lexes_tok. intros l s Hs _ HF. cbn [app] in Hs. destruct s as [|c s]; [contradiction|].
   destruct (N.eqb_spec c 32) as [->|]; [|destruct c as [|p]; try contradiction; do 6 (destruct p as [p|p|]; try contradiction)].
   destruct (lex_ternif uni_letter uni_digit inp base l (32%N :: s) Hs ltac:(cbn; lia) ltac:(repeat split; lia)) as (l' & A & B & C).
@@ -207,12 +220,14 @@ Qed.
 
 Lemma lexes_sub : lexes term anys [45%N] [(itemSub, [45%N])] (eq itemSub).
 Proof.
+  pose proof HYPS as Hyps.
   apply lexes_tok. intros l s Hs HP _. cbn [app] in Hs.
   destruct (lex_sub uni_letter uni_digit inp base l s Hs HP) as (l' & A & B & C). exists 1%nat, l'. auto.
 Qed.
 
 Lemma lexes_negate : lexes opnd (fun s => head_ascii s /\ head_digit s = false) [45%N] [(itemNegate, [45%N])] (eq itemNegate).
 Proof.
+  pose proof HYPS as Hyps.
   apply lexes_tok. intros l s Hs HP [Ha Hd]. cbn [app] in Hs.
   destruct (lex_negate uni_letter uni_digit inp base l s Hs HP Ha Hd) as (l' & A & B & C). exists 1%nat, l'. auto.
 Qed.
@@ -221,18 +236,21 @@ Qed.
 Definition sp_follows (s : bstr) : Prop := match s with 32%N :: _ => True | _ => False end.
 Lemma sp_follows_inv s : sp_follows s -> exists s', s = 32%N :: s'.
 Proof.
+  pose proof HYPS as Hyps.
   destruct s as [|c s]; [contradiction|]. intros H. destruct (N.eqb_spec c 32) as [->|]; [eauto|].
   exfalso. destruct c as [|p]; try contradiction. do 6 (destruct p as [p|p|]; try contradiction).
 Qed.
 
 Lemma lexes_div : lexes anyty sp_follows [47%N] [(itemDiv, [47%N])] (eq itemDiv).
 Proof.
+  pose proof HYPS as Hyps.
   apply lexes_tok. intros l s Hs _ HF. destruct (sp_follows_inv s HF) as (s' & ->). cbn [app] in Hs.
   destruct (lex_div uni_letter uni_digit inp base l _ Hs ltac:(cbn; lia) ltac:(cbn; lia)) as (l' & A & B & C). exists 1%nat, l'. auto.
 Qed.
 
 Lemma lexes_cmp1 c t : (c = 60 /\ t = itemLt \/ c = 62 /\ t = itemGt)%N -> lexes anyty sp_follows [c] [(t, [c])] (eq t).
 Proof.
+  pose proof HYPS as Hyps.
   intros Hc. apply lexes_tok. intros l s Hs _ HF. destruct (sp_follows_inv s HF) as (s' & ->). cbn [app] in Hs.
   destruct (lex_cmp1 uni_letter uni_digit inp base l c t _ Hs Hc ltac:(cbn; lia) ltac:(cbn; lia)) as (l' & A & B & C). exists 1%nat, l'. auto.
 Qed.
@@ -240,12 +258,14 @@ Qed.
 Lemma lexes_cmp2 c t : (c = 60 /\ t = itemLte \/ c = 62 /\ t = itemGte \/ c = 33 /\ t = itemNotEq)%N ->
   lexes anyty anys [c; 61%N] [(t, [c; 61%N])] (eq t).
 Proof.
+  pose proof HYPS as Hyps.
   intros Hc. apply lexes_tok. intros l s Hs _ _. cbn [app] in Hs.
   destruct (lex_cmp2 uni_letter uni_digit inp base l c t _ Hs Hc) as (l' & A & B & C). exists 1%nat, l'. auto.
 Qed.
 
 Lemma lexes_eqeq : lexes anyty anys [61; 61]%N [(itemEq, [61; 61]%N)] (eq itemEq).
 Proof.
+  pose proof HYPS as Hyps.
   apply lexes_tok. intros l s Hs _ _. cbn [app] in Hs.
   destruct (lex_eqeq uni_letter uni_digit inp base l _ Hs) as (l' & A & B & C). exists 1%nat, l'. auto.
 Qed.
@@ -255,6 +275,7 @@ Lemma lexes_number hs ip frac ex : num_ok ip frac ex ->
   lexes (fun ty => hs = true -> opnd ty) (num_follow frac ex) (num_text hs ip frac ex)
         [(num_type frac ex, num_text hs ip frac ex)] (eq (num_type frac ex)).
 Proof.
+  pose proof HYPS as Hyps.
   intros Hok. apply lexes_tok. intros l s Hs HP HF. destruct hs.
   - destruct (lex_number_neg uni_letter uni_digit letter_ascii digit_ascii letter_eof digit_eof inp base l ip frac ex s Hs (HP eq_refl) Hok HF) as (l' & A & B & C).
     exists 2%nat, l'. auto.
@@ -265,6 +286,7 @@ Qed.
 Lemma lexes_string rs : Forall valid_scalar rs -> str_body_ok 39 rs = true ->
   lexes anyty anys (39%N :: string_of_runes rs ++ [39%N]) [(itemString, 39%N :: string_of_runes rs ++ [39%N])] (eq itemString).
 Proof.
+  pose proof HYPS as Hyps.
   intros Hv Hok. apply lexes_tok. intros l s Hs _ _. cbn [app] in Hs. rewrite <- app_assoc in Hs. cbn [app] in Hs.
   destruct (lex_string_tok uni_letter uni_digit inp base l 39%N rs s ltac:(left; reflexivity) Hs Hv Hok) as (l' & A & B & C).
   exists 2%nat, l'. auto.
